@@ -130,6 +130,7 @@ class RowMetadata(Contract):
     serves = ["C03", "C04", "C05"]
     variants = ["plain", "page_by2", "subline1_pageby1"]
     max_paths = 20000
+    abstract_division = True       # W / width: only "the same quotient" matters here (lemma line_estimate_covers_ceiling speaks about int(x)+1)
 
     @property
     def models(self):
@@ -166,7 +167,10 @@ class RowMetadata(Contract):
         # displayed-column bookkeeping: REMOVED(c), DISP(c) = number of displayed columns before c (ghost), widths match the displayed columns
         rem = c.obj(c.v["removed_column_indices"])
         jj = z3.Int("rj")
-        REMOVED = lambda col: Exists([jj], And(0 <= jj, jj < rem.length, rem.get(jj) == col))
+        REM = z3.Function("column_is_removed", z3.IntSort(), z3.BoolSort())
+        cc0 = z3.Int("rc")
+        c.requires("def_removed_columns", ForAll([cc0], REM(cc0) == Exists([jj], And(0 <= jj, jj < rem.length, rem.get(jj) == cc0)), patterns=[REM(cc0)]))
+        REMOVED = lambda col: REM(col)
         DISP = z3.Function("displayed_before", z3.IntSort(), z3.IntSort())
         a, b = z3.Ints("da db")
         c.requires("ghost_displayed_count", And(DISP(0) == 0, ForAll([a], Implies(And(0 <= a, a < d.w), DISP(a + 1) == DISP(a) + If(REMOVED(a), 0, 1)), patterns=[DISP(a)])))
@@ -186,7 +190,7 @@ class RowMetadata(Contract):
         font = AT("text_font", r, wi).payload
         size = AT("text_font_size", r, wi).payload
         width = cwo.get(wi) - If(wi > 0, cwo.get(wi - 1), 0)
-        q = W(text, font, size) / width
+        q = ops.RDIV(W(text, font, size), width)
         return ops.py_int(q) + 1
 
     def chg(self, c, cols, k):
@@ -273,19 +277,23 @@ class RowMetadata(Contract):
             cols = fr.cols
             k = z3.Int("k")
             cl = {"one_record_per_row": fr.n == v.i}
-            body = lambda k: And(
-                Select(cols["row_index"], k) == k, Select(cols["data_rows"], k) >= 1,
-                ForAll([z3.Int("lc")], Implies(And(0 <= z3.Int("lc"), z3.Int("lc") < d.w, Not(c.v["REMOVED"](z3.Int("lc")))),
-                                                Select(cols["data_rows"], k) >= self.lines_needed(c, k, z3.Int("lc")))),
-                Select(cols["pageby_header_rows"], k) >= 0, Select(cols["subline_header_rows"], k) >= 0,
+            lc = z3.Int("lc")
+            parts = {
+                "row_index": lambda k: Select(cols["row_index"], k) == k,
+                "data_rows_at_least_one": lambda k: Select(cols["data_rows"], k) >= 1,
+                "data_rows_cover_cells": lambda k: ForAll([lc], Implies(And(0 <= lc, lc < d.w, Not(c.v["REMOVED"](lc))),
+                                                                        Select(cols["data_rows"], k) >= self.lines_needed(c, k, lc))),
+                "heading_rows_nonneg": lambda k: And(Select(cols["pageby_header_rows"], k) >= 0, Select(cols["subline_header_rows"], k) >= 0),
                 # the subline heading is reserved once per page by calculate_additional_rows_per_page: it must not be added per row again
-                Select(cols["total_rows"], k) == Select(cols["data_rows"], k) + Select(cols["pageby_header_rows"], k),
-                Implies(Select(cols["subline_header_rows"], k) > 0, self.chg(c, sb, k) if sb else z3.BoolVal(False)),
-                Select(cols["is_group_start"], k) == (self.chg(c, pb, k) if pb else z3.BoolVal(False)),
-                Select(cols["is_subline_start"], k) == (self.chg(c, sb, k) if sb else z3.BoolVal(False)),
-                Implies(Select(cols["pageby_header_rows"], k) > 0, self.chg(c, pb, k) if pb else z3.BoolVal(False)),
-                Select(cols["page"], k) == 0)
-            cl["records_so_far"] = ForAll([k], Implies(And(0 <= k, k < v.i), body(k)))
+                "total_is_data_plus_page_by_headings": lambda k: Select(cols["total_rows"], k) == Select(cols["data_rows"], k) + Select(cols["pageby_header_rows"], k),
+                "subline_rows_only_at_subline_starts": lambda k: Implies(Select(cols["subline_header_rows"], k) > 0, self.chg(c, sb, k) if sb else z3.BoolVal(False)),
+                "group_start_flag": lambda k: Select(cols["is_group_start"], k) == (self.chg(c, pb, k) if pb else z3.BoolVal(False)),
+                "subline_start_flag": lambda k: Select(cols["is_subline_start"], k) == (self.chg(c, sb, k) if sb else z3.BoolVal(False)),
+                "heading_rows_only_at_group_starts": lambda k: Implies(Select(cols["pageby_header_rows"], k) > 0, self.chg(c, pb, k) if pb else z3.BoolVal(False)),
+                "page_unassigned": lambda k: Select(cols["page"], k) == 0,
+            }
+            for nm, f in parts.items():
+                cl["records." + nm] = ForAll([k], Implies(And(0 <= k, k < v.i), f(k)))
             return cl
 
         REMOVED, DISP = c.v["REMOVED"], c.v["DISP"]
